@@ -88,9 +88,13 @@ class BundleContainer(object):
             pri.create_ts.getfieldval('seqno')
         ]
         if pri.bundle_flags & PrimaryBlock.Flag.IS_FRAGMENT:
+            # fragments with the same offset but different payload lengths are different bundles
+            pyld = self._block_num.get(Bundle.BLOCK_NUM_PAYLOAD)
+            pyld_data = pyld.getfieldval('btsd') if pyld is not None else None
             ident += [
                 pri.fragment_offset,
                 pri.total_app_data_len,
+                len(pyld_data) if pyld_data is not None else None,
             ]
         return tuple(ident)
 
